@@ -22,7 +22,7 @@ func i64(i int) int64 {
 }
 
 // message M { int64 a = 1; uint32 b = 2; string c = 3; bool d = 4; sint64 e = 7; fixed64 f = 9; bytes g = 10;
-//             Inner in = 11; repeated int32 r = 12; } message Inner { int32 x = 1; string y = 2; }
+//             Inner in = 11; repeated int32 r = 12; Inner p = 13 (held through a pointer); } message Inner { int32 x = 1; string y = 2; }
 type Inner struct {
 	X int32
 	Y string
@@ -38,6 +38,7 @@ type M struct {
 	G  []byte `protobuf:"bytes,10,opt,name=g"`
 	In Inner  `protobuf:"bytes,11,opt,name=in"`
 	R  []int32 `protobuf:"varint,12,rep,name=r"`
+	P  *Inner  `protobuf:"bytes,13,opt,name=p"`
 }
 
 func mkM() M {
@@ -45,6 +46,9 @@ func mkM() M {
 	m.In = Inner{X: int32(i64(3)), Y: vfString(vfLen)}
 	for i := 0; i < vfLen2; i++ {
 		m.R = append(m.R, int32(i64(4)))
+	}
+	if vfBool() {
+		m.P = &Inner{X: int32(int8(vfByte())), Y: vfString(vfLen)}
 	}
 	return m
 }
@@ -150,6 +154,11 @@ func eqM(a, b M) {
 	vfAssert(string(a.G) == string(b.G), "M.g")
 	vfAssert(a.In.X == b.In.X, "M.in.x")
 	vfAssert(a.In.Y == b.In.Y, "M.in.y")
+	vfAssert((a.P == nil) == (b.P == nil), "M.p-presence")
+	if a.P != nil && b.P != nil {
+		vfAssert(a.P.X == b.P.X, "M.p.x")
+		vfAssert(a.P.Y == b.P.Y, "M.p.y")
+	}
 	vfAssert(len(a.R) == len(b.R), "M.r-len")
 	for i := 0; i < len(a.R) && i < len(b.R); i++ {
 		vfAssert(a.R[i] == b.R[i], "M.r")
@@ -224,6 +233,16 @@ func vfH_c12_encode() {
 			v, n := protowire.ConsumeVarint(b)
 			ok = n >= 0
 			back.R = append(back.R, int32(v))
+			b = b[max(n, 0):]
+		case num == 13 && typ == protowire.BytesType:
+			v, n := protowire.ConsumeBytes(b)
+			ok = n >= 0
+			if ok {
+				if back.P == nil {
+					back.P = new(Inner)
+				}
+				ok = refDecodeInner(v, back.P)
+			}
 			b = b[max(n, 0):]
 		default:
 			ok = false // a field the message does not declare, or a wrong wire type
@@ -305,6 +324,24 @@ func vfH_c12_decode() {
 		b = protowire.AppendTag(b, 11, protowire.BytesType)
 		return protowire.AppendBytes(b, p)
 	}
+	fP := func(b []byte) []byte {
+		if m.P == nil {
+			return b
+		}
+		var p1, p2 []byte
+		p1 = protowire.AppendTag(p1, 1, protowire.VarintType)
+		p1 = pad(p1, uint64(int64(m.P.X)))
+		p2 = protowire.AppendTag(p2, 2, protowire.BytesType)
+		p2 = protowire.AppendString(p2, m.P.Y)
+		if vfMode == 4 { // two occurrences: {x} then {y}; a conformant decoder merges them
+			b = protowire.AppendTag(b, 13, protowire.BytesType)
+			b = protowire.AppendBytes(b, p1)
+			b = protowire.AppendTag(b, 13, protowire.BytesType)
+			return protowire.AppendBytes(b, p2)
+		}
+		b = protowire.AppendTag(b, 13, protowire.BytesType)
+		return protowire.AppendBytes(b, append(p1, p2...))
+	}
 	fR := func(b []byte) []byte {
 		for _, r := range m.R {
 			b = protowire.AppendTag(b, 12, protowire.VarintType)
@@ -325,9 +362,8 @@ func vfH_c12_decode() {
 	}
 	switch vfMode {
 	case 1:
-		b = fR(fIn(fG(fF(fE(fD(fC(fB(fA(nil)))))))))
 		// reverse order
-		b = fA(fB(fC(fD(fE(fF(fG(fIn(fR(nil)))))))))
+		b = fA(fB(fC(fD(fE(fF(fG(fIn(fR(fP(nil))))))))))
 	case 3:
 		// each scalar first with another value, then with the right one
 		b = protowire.AppendTag(b, 1, protowire.VarintType)
@@ -336,7 +372,7 @@ func vfH_c12_decode() {
 		b = protowire.AppendString(b, "zz")
 		b = protowire.AppendTag(b, 4, protowire.VarintType)
 		b = protowire.AppendVarint(b, 1)
-		b = fR(fIn(fG(fF(fE(fD(fC(fB(fA(b)))))))))
+		b = fP(fR(fIn(fG(fF(fE(fD(fC(fB(fA(b))))))))))
 	default:
 		b = fA(b)
 		b = unk(b)
@@ -349,6 +385,7 @@ func vfH_c12_decode() {
 		b = fG(b)
 		b = fIn(b)
 		b = fR(b)
+		b = fP(b)
 		b = unk(b)
 	}
 	var got M
